@@ -1,16 +1,17 @@
 package main
 
 import (
-	"crypto/sha1"
-	"os"
-	"sort"
-	"sync"
-	"sync/atomic"
 	"bufio"
+	"crypto/sha1"
 	"fmt"
 	"io"
+	"os"
 	"os/exec"
+	"sort"
+	"strconv"
 	"strings"
+	"sync"
+	"sync/atomic"
 	"time"
 )
 
@@ -22,6 +23,8 @@ var slowN int
 // start-up or reset cost); queries with integer arithmetic go to a process that is
 // reset per query (z3's incremental core is much slower on non-linear integers).
 type proc struct {
+	limit   time.Duration
+	dead    bool
 	cmd     *exec.Cmd
 	in      io.WriteCloser
 	out     *bufio.Reader
@@ -30,12 +33,12 @@ type proc struct {
 }
 
 type Solver struct {
-	argv    []string
-	inc     *proc
-	one     *proc
-	Queries int
-	Time    time.Duration
-	pre     string
+	argv      []string
+	inc       *proc
+	one       *proc
+	Queries   int
+	Time      time.Duration
+	pre       string
 	tt        *TermTable
 	last      string
 	CacheHits int
@@ -56,7 +59,15 @@ func startProc(argv []string) *proc {
 	if err := cmd.Start(); err != nil {
 		panic(err)
 	}
-	return &proc{cmd: cmd, in: in, out: bufio.NewReader(outp)}
+	limit := 90 * time.Second
+	for _, a := range argv {
+		if strings.HasPrefix(a, "-t:") {
+			if ms, err := strconv.Atoi(a[3:]); err == nil {
+				limit = time.Duration(ms)*time.Millisecond*3 + 5*time.Second
+			}
+		}
+	}
+	return &proc{cmd: cmd, in: in, out: bufio.NewReader(outp), limit: limit}
 }
 
 func NewSolver(argv []string) *Solver {
@@ -113,14 +124,14 @@ func (s *Solver) Check(roots []*Term, want []*Term) (string, map[string]string) 
 	var sb strings.Builder
 	var p *proc
 	if hasInt || s.argv[0] == "cvc5" {
-		if s.one == nil {
+		if s.one == nil || s.one.dead {
 			s.one = startProc(s.argv)
 		}
 		p = s.one
 		sb.WriteString("(reset)\n(set-option :produce-models true)\n")
 		sb.WriteString(s.pre)
 	} else {
-		if s.inc == nil {
+		if s.inc == nil || s.inc.dead {
 			s.inc = startProc(s.argv)
 		}
 		p = s.inc
@@ -163,7 +174,7 @@ func (s *Solver) Check(roots []*Term, want []*Term) (string, map[string]string) 
 				s.alts = map[string]*proc{}
 			}
 			ap := s.alts[key]
-			if ap == nil {
+			if ap == nil || ap.dead {
 				ap = startProc(alt)
 				s.alts[key] = ap
 			}
@@ -239,12 +250,24 @@ func (s *Solver) Check(roots []*Term, want []*Term) (string, map[string]string) 
 	return verdict, model
 }
 
+// readUntilDone reads the solver's answer; a watchdog kills a solver that stays silent past its
+// own time limit (its answer is then "unknown" and the process is restarted on the next query).
 func (s *proc) readUntilDone() []string {
 	var lines []string
+	watchdog := time.AfterFunc(s.limit, func() {
+		s.dead = true
+		s.cmd.Process.Kill()
+		fmt.Fprintf(os.Stderr, "solver watchdog: killed a silent %s after %v\n", s.cmd.Path, s.limit)
+	})
+	defer watchdog.Stop()
 	for {
 		l, err := s.out.ReadString('\n')
 		l = strings.TrimSpace(l)
-		if l == "<<done>>" || err != nil {
+		if err != nil {
+			s.dead = true
+			return lines
+		}
+		if l == "<<done>>" {
 			return lines
 		}
 		if l != "" {
